@@ -639,7 +639,11 @@ fn variations(base: &ObsReq) -> Vec<ObsReq> {
         v.push(ObsReq { bounded: true, maxb: *b, maxw: *w, ..base.clone() });
     }
     if base.proj == "truth" {
-        for chs in [vec!["c1"], vec!["c2", "c3"], vec!["c9"], vec![]] {
+        // filters are caller-ordered lists: every order of a channel set must select the same recorded channels
+        for chs in [
+            vec!["c1"], vec!["c2", "c3"], vec!["c3", "c2"], vec!["c1", "c2", "c3"], vec!["c3", "c1", "c2"], vec!["c2", "c1", "c3"],
+            vec!["c3", "c2", "c1"], vec!["c2", "c9", "c1"], vec!["c9"], vec![],
+        ] {
             v.push(ObsReq { chs: chs.clone(), fall: false, ..base.clone() });
             v.push(ObsReq { chs, fall: false, bounded: true, maxb: 40, maxw: 1, ..base.clone() });
         }
@@ -1566,7 +1570,53 @@ impl Driver {
         self.ckpt_scenario(rng)?;
         self.sweep(rng, var_coords);
         self.reask(rng, reads_per_step * 4);
+        self.missing_history_probe();
         Ok(())
+    }
+
+    /// "Unavailable history yields a typed obstruction": a runtime restored from the live frontier state next to a
+    /// provenance service that knows the worldline but none of its commits (the shape a host gets when it rebuilds
+    /// provenance from a live state). A frontier read at tick N > 0 has no recorded commit to bind to; answering it
+    /// with a reading (e.g. witnessed as an empty frontier without commits) is a reading of some other history.
+    fn missing_history_probe(&mut self) {
+        let names = self.world.names.clone();
+        for name in names {
+            if self.world.strands.contains_key(&name) || self.world.len(&name) == 0 {
+                continue;
+            }
+            let Some(frontier) = self.world.rt.worldlines().get(&wid(&name)) else { continue };
+            let live = frontier.state().clone();
+            let mut rt = WorldlineRuntime::new();
+            let mut prov = ProvenanceService::new();
+            if prov.register_worldline(wid(&name), &live).is_err() || rt.register_worldline(wid(&name), live).is_err() {
+                continue;
+            }
+            if rt
+                .register_writer_head(WriterHead::with_routing(head_key(&name), PlaybackMode::Play, InboxPolicy::AcceptAll, None, true))
+                .is_err()
+            {
+                continue;
+            }
+            for proj in ["head", "snapshot"] {
+                let q = ObsReq::pair(&name, None, "CB", proj);
+                let real = q.real();
+                let r = util::catch(|| ObservationService::observe(&rt, &prov, &self.world.engine, real));
+                self.reads += 1;
+                match r {
+                    Err(p) => self.violation(format!("observe_panicked:missing_history:{}", q.class()), p, q.json()),
+                    Ok(Ok(a)) => self.violation(
+                        format!("unavailable_history_answered:{}", q.class()),
+                        format!(
+                            "frontier read at tick {} served although provenance holds no commit of the worldline: resolved {:?}",
+                            self.world.len(&name),
+                            a.resolved
+                        ),
+                        q.json(),
+                    ),
+                    Ok(Err(_)) => {}
+                }
+            }
+        }
     }
 }
 
